@@ -326,6 +326,29 @@ def payloadSchema : RecordKind → Schema
   | .Scratchpad => scratchpad
   | .ScratchpadWithPayment => .tup [proofOfPayment, scratchpad]
 
+/-- the Rust type stored under each kind, spelled as at the `try_deserialize_record::<T>` call sites (spaces removed) -/
+def payloadTypeName : RecordKind → String
+  | .Chunk => "Chunk"
+  | .ChunkWithPayment => "(ProofOfPayment,Chunk)"
+  | .Transaction => "Vec<Transaction>"
+  | .TransactionWithPayment => "(ProofOfPayment,Transaction)"
+  | .Register => "SignedRegister"
+  | .RegisterWithPayment => "(ProofOfPayment,SignedRegister)"
+  | .Scratchpad => "Scratchpad"
+  | .ScratchpadWithPayment => "(ProofOfPayment,Scratchpad)"
+
+/-- the schema of a Rust type spelled that way (`Vec<T>` a sequence, `(A,B)` a 2-tuple) -/
+def schemaOfRust : String → Option Schema
+  | "Chunk" => some chunk
+  | "Scratchpad" => some scratchpad
+  | "SignedRegister" => some signedRegister
+  | "Vec<Transaction>" => some (.seq transaction)
+  | "(ProofOfPayment,Chunk)" => some (.tup [proofOfPayment, chunk])
+  | "(ProofOfPayment,Scratchpad)" => some (.tup [proofOfPayment, scratchpad])
+  | "(ProofOfPayment,Transaction)" => some (.tup [proofOfPayment, transaction])
+  | "(ProofOfPayment,SignedRegister)" => some (.tup [proofOfPayment, signedRegister])
+  | _ => none
+
 /-- the type names used on the op lines of the correspondence run -/
 def schemaOf : String → Option Schema
   | "RecordHeader" => some recordHeader
